@@ -81,6 +81,9 @@ def shape_axioms(ctx):
                                                            unravel_idx(ravel_idx(i, s), s) == i))),
         z3.ForAll([s, i], z3.Implies(inshape(i, ravel_shape(s)), z3.And(inshape(unravel_idx(i, s), s),
                                                                         ravel_idx(unravel_idx(i, s), s) == i))),
+        # broadcasting against a 0-d operand
+        z3.ForAll([s], z3.And(bok(s, shp0), bshape(s, shp0) == s)),
+        z3.ForAll([s, i], z3.Implies(inshape(i, s), proj(i, s, shp0) == the_idx(shp0))),
         # a 0-d array has exactly one position
         z3.ForAll([s, i], z3.Implies(z3.And(ndim(s) == 0, inshape(i, s)), i == the_idx(s))),
         z3.ForAll([s], z3.Implies(ndim(s) == 0, inshape(the_idx(s), s))),
@@ -288,6 +291,8 @@ class Arr:
         return elementwise(ex, lambda a, b: f(a, b), [self, other], "bool", node)
 
     def sx_binop(self, ex, op, other, node, reflected):
+        if isinstance(other, Poly):
+            return NotImplemented              # __array_priority__: the polynomial operand handles the operator
         args = [other, self] if reflected else [self, other]
         if self.kind == "bool" and op in ("BitAnd", "BitOr", "BitXor"):
             f = {"BitAnd": z3.And, "BitOr": z3.Or, "BitXor": z3.Xor}[op]
@@ -561,6 +566,20 @@ class MonoRow:
             return expo(self.m, idx)
         raise U("row indexing", node)
 
+    def sx_binop(self, ex, op, other, node, reflected):
+        if op == "Sub" and isinstance(other, MonoRow) and not reflected:
+            # unsigned 32-bit difference of two exponent rows (wraps when an entry would become negative)
+            ctx = ex.ctx
+            ex.oblige(f"pre({ex.site('row_difference')}).same_width", self.D == other.D, "precondition", node)
+            m = ctx.const("rowdiff", Mono)
+            d = z3.Int(ctx.fresh("d"))
+            diff = expo(self.m, d) - expo(other.m, d)
+            ctx.assume(z3.ForAll([d], expo(m, d) == z3.If(diff >= 0, diff, diff + 2 ** 32), patterns=[expo(m, d)]))
+            out = MonoRow(m, self.D)
+            out.difference_of = (self, other)
+            return out
+        return NotImplemented
+
     def sx_seq(self, ex):
         return V.Seq(self.D, lambda d: expo(self.m, d))
 
@@ -725,6 +744,14 @@ class Poly:
             if self._init is not None:
                 oldI = self._init
                 self._init = lambda u, i: z3.Or(u == t, oldI(u, i))
+            # the polynomial denoted by an element changes with its coefficients: forget the abstract value
+            # (a contract that can justify what the write does to it says so in its `on_coefficient_write` hook)
+            oldval = self._val
+            vf = z3.Function(ex_.ctx.fresh(f"val_{self.base}_w"), Idx, PV)
+            self._val = lambda i: vf(i)
+            hook = getattr(ex_, "hooks", {}).get("on_coefficient_write") if isinstance(getattr(ex_, "hooks", None), dict) else None
+            if hook:
+                hook(ex_, self, t, oldval, oldC, node)
         a.writer = writer
         return a
 
@@ -765,6 +792,26 @@ class Poly:
         if attr == "flags":
             return {"OWNDATA": self.owndata}
         return V.BoundMethod(self, attr)
+
+    OPERATORS = {"Add": "add", "Sub": "subtract", "Mult": "multiply", "Pow": "power"}
+
+    def sx_binop(self, ex, op, other, node, reflected):
+        """binary operators on an ndpoly reach the numpoly function of the same name through
+        __array_ufunc__ / __array_priority__ (numpy protocol, A5; routing table proved under C08)"""
+        fname = self.OPERATORS.get(op)
+        if fname is None:
+            return NotImplemented
+        model = ex.reg.fn.get(f"numpoly.{fname}")
+        if model is None:
+            raise U(f"operator {op} on ndpoly: no contract for numpoly.{fname}", node)
+        args = [other, self] if reflected else [self, other]
+        return model(ex, args, {}, node)
+
+    def sx_getitem(self, ex, idx, node):
+        model = ex.reg.fn.get("numpoly.ndpoly.__getitem__")
+        if model is None:
+            raise U("ndpoly indexing", node)
+        return model(ex, [self, idx], {}, node)
 
     def sx_method(self, ex, attr, args, kw, node):
         if attr == "ravel" and not args:
@@ -906,6 +953,17 @@ class KeySeq:
     def sx_getitem(self, ex, idx, node):
         return self.sx_seq(ex).sx_getitem(ex, idx, node)
 
+    def sx_contains(self, ex, item, node):
+        """`key in poly.keys`: some term of the polynomial has the exponent row the key encodes
+        (keys are an injective encoding of rows of one width: codec lemma, C20)"""
+        if not isinstance(item, KeyTok):
+            raise U("membership of a non-key in keys", node)
+        p, q = self.poly, item.poly
+        if q is p:
+            return z3.And(0 <= item.t, item.t < p.N)
+        from .sortmodel import meq
+        return z3.And(p.D == q.D, z3.Not(ex.ctx.forall_range(0, p.N, lambda t: z3.Not(meq(p.row(t), q.row(item.t), p.D)))))
+
 
 class ValuesView:
     """`poly.values`: the raw structured array, aliasing the polynomial's buffer."""
@@ -923,10 +981,20 @@ class ValuesView:
         shared = getattr(p, "aligned_with", None)
         if shared is not None and key.poly in shared:
             return key.t
+        same_pos = z3.And(key.t >= 0, key.t < p.N, key.poly.row(key.t) == p.row(key.t), key.poly.D == p.D)
+        from .logic import simplify_bool as _sb
+        if _sb(same_pos) is True:
+            return key.t
+        # general case: the field whose exponent row equals the row the key encodes (must exist: KeyError otherwise)
+        from .sortmodel import meq
+        ctx = ex.ctx
+        q = key.poly
         ex.oblige(f"pre({ex.site('values_key')}).key_is_field",
-                  z3.And(key.t >= 0, key.t < p.N, key.poly.row(key.t) == p.row(key.t), key.poly.D == p.D),
-                  "precondition", node, note="field lookup by another polynomial's key needs identical rows")
-        return key.t
+                  z3.And(p.D == q.D, z3.Not(ctx.forall_range(0, p.N, lambda t: z3.Not(meq(p.row(t), q.row(key.t), p.D))))),
+                  "precondition", node, note="field lookup by another polynomial's key: a term with that exponent row must exist")
+        pos = ctx.int("field_pos")
+        ctx.assume(z3.And(0 <= pos, pos < p.N, meq(p.row(pos), q.row(key.t), p.D)))
+        return pos
 
     def sx_getitem(self, ex, idx, node):
         t = self._term(ex, idx, node)
